@@ -86,6 +86,13 @@ func Open(options Options) (*DB, error) {
 	if !hold {
 		return nil, ErrDatabaseIsUsing
 	}
+	// 打开失败时必须释放文件锁, 否则在进程退出之前该目录无法再次打开
+	opened := false
+	defer func() {
+		if !opened {
+			_ = fileLock.Unlock()
+		}
+	}()
 
 	// 初始化 DB 实例
 	db := &DB{
@@ -159,6 +166,7 @@ func Open(options Options) (*DB, error) {
 		}()
 	}
 
+	opened = true
 	return db, nil
 }
 
